@@ -87,6 +87,17 @@ impl<'a> Tape<'a> {
             _ => (0..len).map(|_| self.byte()).collect(),
         }
     }
+    /// a blob that costs at most 5 tape octets whatever its length
+    pub fn blob_cheap(&mut self, len: usize) -> Vec<u8> {
+        match self.below(3) {
+            0 => vec![0u8; len],
+            1 => (0..len).map(|i| i as u8).collect(),
+            _ => {
+                let pat = [self.byte(), self.byte(), self.byte(), self.byte()];
+                (0..len).map(|i| pat[i % 4].wrapping_add((i / 4) as u8)).collect()
+            }
+        }
+    }
     pub fn raw(&mut self, len: usize) -> Vec<u8> {
         (0..len).map(|_| self.byte()).collect()
     }
@@ -270,7 +281,7 @@ pub fn gen_control_big(t: &mut Tape) -> SMsg {
             n = n.clamp(1, max);
         }
         let attr = [7u16, 11, 26, 30, 37][t.below(5)];
-        avps.push(SAvp { attr, hidden: false, body: Body::Blob(t.blob(n)) });
+        avps.push(SAvp { attr, hidden: false, body: Body::Blob(t.blob_cheap(n)) });
         budget -= 6 + n;
         if !exact && budget < 3000 && t.chance(30) {
             break;
